@@ -35,8 +35,8 @@ theorem numBuiltins_are_model (x : F64) (n : Int) :
 
 /-- the interpreter is not trivially agreeable: what the translator does not understand has no value, and the seeded
 rewrite `floor(f + 1)` is a different function (it differs from the model at the double just below 2) -/
-example : FE.eval src 8 [("f", .f (F64.ofInt 1))] (.unsupported "x") = none := rfl
-example : (FE.eval src 8 [("f", .f ⟨4611686018427387903⟩)] (.call1 "floor" (.bin "+" (.var "f") (.lit 1)))).map
+example : FE.eval (run src) [("f", .f (F64.ofInt 1))] (.unsupported "x") = none := rfl
+example : (FE.eval (run src) [("f", .f ⟨4611686018427387903⟩)] (.call1 "floor" (.bin "+" (.var "f") (.lit 1)))).map
       (fun v => (FE.asF v).bits) = some (F64.ofInt 3).bits ∧
     (Num.inc ⟨4611686018427387903⟩).bits = (F64.ofInt 2).bits := by decide +kernel
 
